@@ -19,7 +19,7 @@ RULE = ('seeded generator: field shapes 1..7 per side (even/odd/non-square/one-e
 ASSUMPTIONS = ['one-element fields are infinite constants only in products (DESIGN.md C06 domain decision)',
                'scalar x scalar with different offsets is excluded (documented lentil rule, unreachable via Plane/Wavefront)']
 PLAN = {'quick': {'gen': 8}, 'thorough': {'gen': 16, 'tests': 1, 'docs': 1}}
-REQUIRED_BUCKETS = ['merge:constants', 'mul:array*array', 'mul:array*scalar', 'mul:scalar*scalar', 'mul:disjoint',
+REQUIRED_BUCKETS = ['insert:constant', 'merge:constants', 'mul:array*array', 'mul:array*scalar', 'mul:scalar*scalar', 'mul:disjoint',
                     'insert:inside', 'insert:clipped', 'insert:outside', 'insert:intensity',
                     'reduce:n>=3', 'boundary:negative-only', 'extent:queries']
 REQUIRED_ANCHORS = ['probe:Field.__mul__', 'probe:insert', 'probe:_merge', 'probe:reduce', 'probe:boundary',
@@ -128,6 +128,21 @@ def insert_before(ctx, args, kwargs):
 def insert_oracle(ctx, args, kwargs, result, exc, pre):
     a = _bind_insert(args, kwargs)
     field, out = a['field'], a['out']
+    if pre is not None and isinstance(out, np.ndarray) and out.ndim == 2 and field.data.ndim == 0:
+        # an infinite constant: the part of its embedding that falls inside the array is the whole array
+        wit = {'constant': complex(field.data), 'offset': [int(x) for x in field.offset], 'out_shape': list(out.shape),
+               'intensity': bool(a['intensity']), 'weight': a['weight']}
+        if exc is not None:
+            ctx.check(False, 'insert=canvas', f'insert|constant|raises={type(exc).__name__}',
+                      f'inserting a constant (0-d) field raised {type(exc).__name__}: {exc}', wit)
+            return
+        cval = abs(complex(field.data)) ** 2 if a['intensity'] else complex(field.data)
+        ref = pre.astype(complex) + cval * a['weight']
+        if not np.iscomplexobj(out):
+            ref = ref.real
+        ctx.close('insert=canvas', result, ref, TOL, 'insert|constant|value', 'inserting a constant field did not add the constant to every sample',
+                  wit, scale=max(float(np.max(np.abs(ref))), 1e-300))
+        return
     if pre is None or not isinstance(out, np.ndarray) or out.ndim != 2 or field.data.ndim != 2 or field.data.size == 0:
         ctx.skip('insert: non 2-D operands')
         return
@@ -351,6 +366,24 @@ def workload(ctx, lentil):
         if rng.random() < 0.1 and fs[0] <= 9 and fs[1] <= 9:
             ts, off = fs, [0, 0]           # fast path: equal shapes, zero offset
         field = Field(_rdata(rng, fs), offset=off)
+        if i % 25 == 7:
+            # a constant (0-d) field, with or without an offset of its own
+            cfield = Field(np.array(complex(rng.normal(), rng.normal())), offset=off if i % 2 else None)
+            ctx.case({'op': 'insert-constant', 'target': list(ts)}, ['insert:constant'])
+            outc = _rdata(rng, ts) if i % 3 else rng.normal(size=ts)
+            try:
+                F.insert(cfield, outc, intensity=bool(i % 3 == 0), weight=[1, 0.5, -2.0][i % 3])     # probe decides
+            except Exception:
+                pass
+            try:
+                wdef = lentil.Wavefront(6e-7)
+                acc = rng.normal(size=ts)
+                acc0 = acc.copy()
+                r_ = wdef.insert(acc, 0.25)
+                ctx.check(np.allclose(r_, acc0 + 0.25, rtol=1e-13, atol=1e-13), 'insert=canvas', 'insert|constant|default-wavefront',
+                          'accumulating the default (unit plane wave) wavefront does not add weight*1 to every sample', {'target': list(ts)})
+            except Exception as e:
+                ctx.check(False, 'insert=canvas', f'insert|constant|default-wavefront|raises={type(e).__name__}', str(e), {'target': list(ts)})
         cs = rm.coordset(fs, off)
         tgt = {(r - ts[0] // 2, c - ts[1] // 2) for r in range(ts[0]) for c in range(ts[1])}
         inter = cs & tgt
